@@ -294,6 +294,41 @@ def rule_t3(chk: Check, ix: Index, reach: set[str]):
                             f"`{norm_stmt(n)}` has no default and no StopIteration handler: when the token stream is "
                             f"exhausted a bare StopIteration (RuntimeError inside a generator) escapes")
     chk.floor("T3-unguarded-next", 1)
+    # an unbounded capture loop (`while True:` around the raw fetch) ends at the end of the input: either the fetch raises when the
+    # stream is exhausted — on every path of its StopIteration handler — or the loop itself leaves on ENDMARKER
+    def always_raises(stmts) -> bool:
+        from ..pyflow import stmt_paths
+        try:
+            ps = stmt_paths(list(stmts), opaque_loops=True)
+        except AnalysisError:
+            return False
+        return bool(ps) and all(p[-1][1] == "raise" for p in ps)
+
+    fetchers: dict[str, bool] = {}
+    for q, f in ix.funcs.items():
+        if f.cls != "Tokenizer":
+            continue
+        for t in [n for n in own_nodes(f.node) if isinstance(n, ast.Try)]:
+            if any(isinstance(c, ast.Call) and isinstance(c.func, ast.Name) and c.func.id == "next" for b in t.body for c in ast.walk(b)):
+                hs = [h for h in t.handlers if h.type is None or "StopIteration" in norm_stmt(h.type) or norm_stmt(h.type) in ("Exception", "BaseException")]
+                fetchers[f.node.name] = bool(hs) and all(always_raises(h.body) for h in hs)
+    for q, f in sorted(ix.funcs.items()):
+        if f.cls != "Tokenizer":
+            continue
+        for loop in [n for n in own_nodes(f.node) if isinstance(n, ast.While) and isinstance(n.test, ast.Constant) and n.test.value is True]:
+            calls = [c for c in ast.walk(loop) if isinstance(c, ast.Call) and isinstance(c.func, ast.Attribute) and c.func.attr in fetchers
+                     and norm_stmt(c.func.value) == "self"]
+            if not calls:
+                continue
+            chk.count("T3-capture-loop-exit")
+            raising = all(fetchers[c.func.attr] for c in calls)
+            on_end = any(isinstance(i, ast.If) and "ENDMARKER" in norm_stmt(i.test) and
+                         any(isinstance(x, (ast.Break, ast.Return, ast.Raise)) for b in i.body for x in ast.walk(b)) for i in ast.walk(loop))
+            chk.require(raising or on_end, "T3-capture-loop-exit", f"{q}:while-true", f"{f.rel}:{loop.lineno}",
+                        f"the capture loop of `{q}` fetches raw tokens without bound: the fetch `{calls[0].func.attr}` can return at the end of "
+                        f"the stream (its StopIteration handler does not raise on every path) and the loop has no exit on ENDMARKER — a call "
+                        f"macro closed by the wrong bracket (`f!(a]`) then spins forever")
+    chk.floor("T3-capture-loop-exit", 1)
 
 
 def _inside_try_catching(fn, node, names) -> bool:
